@@ -429,6 +429,8 @@ def cut_edges(F, body, R=None, note=None):
             kind = "in-flight-completion"
         elif re.search(r"stream::Next<", ty):
             kind = "stream-next"
+        elif aw.poll_resolved and _helper_must_suspend(F, aw.poll_resolved, body):
+            kind = "helper-must-suspend"
         if kind:
             cuts[(aw.switch_bb, aw.ready_bb)] = kind
             if note is not None:
@@ -438,6 +440,34 @@ def cut_edges(F, body, R=None, note=None):
         for (a, b) in _productive_edges(body, t):
             cuts[(a, b)] = f"driver({kind})"
     return cuts
+
+
+_MS_STACK = []
+
+
+def _helper_must_suspend(F, res, caller):
+    """Awaiting a crate-local `async fn` helper suspends (or blocks / consumes) iff every path through the helper's
+    coroutine from entry to return crosses one of *its* suspension edges."""
+    co = F.body(res, caller.crate)
+    if co is None or not co.is_coroutine or co.key in _MS_STACK or co is caller:
+        return False
+    _MS_STACK.append(co.key)
+    try:
+        cuts = cut_edges(F, co)
+    finally:
+        _MS_STACK.pop()
+    seen, work = set(), [0]
+    while work:
+        x = work.pop()
+        if x in seen:
+            continue
+        seen.add(x)
+        if co.blocks[x]["term"]["k"] == "return":
+            return False
+        for y in co.succ[x]:
+            if (x, y) not in cuts:
+                work.append(y)
+    return True
 
 
 def _productive_edges(body, t):
@@ -490,6 +520,7 @@ def runner_coroutines(F):
 def r5(F, R):
     cors = runner_coroutines(F)
     n_cycles_examined = 0
+    per_body = {}
     for b in cors:
         notes = []
         cuts = cut_edges(F, b, note=notes)
@@ -499,6 +530,7 @@ def r5(F, R):
         # count source-level cycles examined: SCCs of the uncut graph minus poll loops
         raw = A.all_cycles_sccs(live, lambda n: [s for s in b.succ[n] if cuts.get((n, s)) != "yield"])
         n_cycles_examined += len(raw)
+        per_body[b.key] = len(raw)
         key_base = b.short
         if not sccs:
             R.ok(f"acyclic/{key_base}", b, f"{len(raw)} loop(s), all cross a suspension or bounded-driver edge; cuts={sorted(set(cuts.values()))}")
@@ -520,8 +552,11 @@ def r5(F, R):
                         f"suspension-free cycle of {len(comp)} blocks ({lines[0]} … {lines[-1]}): it can repeat inside one poll "
                         f"without yielding, suspending or consuming input; awaits on it: {awaited or 'none'} (all may be Ready at once)",
                         path=path)
-    R.check(n_cycles_examined >= 5, "cycles-examined", None, f"{n_cycles_examined} loops examined in {len(cors)} runner coroutines",
-            f"only {n_cycles_examined} loops examined")
+    # non-vacuity: the scheduling loop (EXECUTE) and the ingestion loop (INSERT) are among the loops examined
+    _ex, _ins = roles.execute(F), roles.insert_features(F)
+    R.check(per_body.get(_ex.key, 0) >= 1 and per_body.get(_ins.key, 0) >= 1 and n_cycles_examined >= 3, "cycles-examined", None,
+            f"{n_cycles_examined} loops examined in {len(cors)} runner coroutines (scheduling loop and ingestion loop among them)",
+            f"the scheduling / ingestion loops are not among the {n_cycles_examined} loops examined")
     # the in-flight completion await is reached only when something is in flight
     ex = roles.execute(F)
     infl = [aw for aw in A.awaits(ex) if re.search(r"FuturesUnordered<", aw.fut_type)]
@@ -531,24 +566,21 @@ def r5(F, R):
         m = re.search(r"FuturesUnordered<(.*)>", aw.fut_type)
         R.check(bool(m) and "future::YieldThenReturn<" in m.group(1), "in-flight-elements-yield", aw.poll_site,
                 "every in-flight future is a then_yield future", f"in-flight element type is not a then_yield future: {aw.fut_type[:120]}")
-        # non-emptiness: the await is not reachable from the 'both empty' edge without re-testing
-        tests = [(s, t) for s, t in ex.calls(lambda t: callee_is(t, r"FuturesUnordered::<.*>::is_empty$"))]
-        ok = False
-        for s, t in tests:
-            sw = ex.blocks[t["t"]]["term"]
-            if sw["k"] != "switch":
-                continue
-            true_t = sw["otherwise"]
-            # from the true edge, a second is_empty on the batch
-            nxt = [(s2, t2) for s2, t2 in ex.calls(lambda t2: callee_is(t2, r"Vec::<.*>::is_empty$")) if s2.bb in ex.reachable_blocks(true_t, cut_blocks=frozenset([s.bb]))]
-            for s2, t2 in nxt:
-                sw2 = ex.blocks[t2["t"]]["term"]
-                if sw2["k"] != "switch":
-                    continue
-                both = sw2["otherwise"]
-                reach = ex.reachable_blocks(both, cut_blocks=frozenset([s.bb]))
-                if aw.poll_site.bb not in reach:
-                    ok = True
+        # non-emptiness, on the paths from the scheduling round's start (GET's result) to the completion await: each one
+        # learned `in-flight set not empty` or `batch not empty` (deep path enumeration: spelling-independent)
+        from . import deep as D
+        aw_get, _get = role_get(F)
+        dp = D.Deep(F, ex, inline=False, stop_at=[aw.poll_site.bb], max_paths=20000).run(start_bb=aw_get.ready_bb)
+        reached = [p for p in dp if p.ret and p.ret[0] == "reached"]
+        ok = bool(reached)
+        for p in reached:
+            nonempty = False
+            for atom, out in p.conds:
+                if atom[0] == "call" and out is False and (re.search(r"FuturesUnordered(::<.*>)?::is_empty$", atom[1]) or re.search(r"Vec(::<.*>)?::is_empty$", atom[1])):
+                    nonempty = True
+                if atom[0] == "bin" and atom[1] in ("Eq", "Ne", "Gt", "Lt", "Ge", "Le") and D.mentions(atom, lambda x: x[0] == "call" and re.search(r"(FuturesUnordered|Vec)(::<.*>)?::len$", x[1])):
+                    nonempty = nonempty or (atom[1], out) in (("Eq", False), ("Ne", True), ("Gt", True))
+            ok = ok and nonempty
         R.check(ok, "in-flight-await-nonempty", aw.poll_site, "the completion await is unreachable from the 'nothing running ∧ nothing runnable' edge",
                 "the completion await can be reached with an empty in-flight set (next() is then Ready(None) forever)")
     R.floor(6)
